@@ -1,9 +1,47 @@
-(* Lemmas used by coq/link/C15Link.v and coq/link/C01Link.v: the translator's vocabulary (PyPrelude.v) against the
-   list functions the DomainWall / Encoder models are written with.  No property theorem depends on this file. *)
+(* C15 / C01 translation tie, static part.
+   PART 0 (TRUSTED, belongs to the data representation of translator/specs/c15.py and c01.py; used by the GENERATED
+   modules): how the Python objects the translated functions touch are read as model values.
+   PARTS 1.. (not trusted, checked by Coq): lemmas used by coq/link/C15Link.v and coq/link/C01Link.v, relating the
+   translator's vocabulary (PyPrelude.v) to the list functions the DomainWall / Encoder models are written with.
+   No property theorem depends on this file. *)
 From QV Require Import Translate.PyPrelude Translate.PyPrelude_proofs.
 From QV Require Import Jssp.DomainWall.
 Open Scope Z_scope.
 
+(* ================================================================================== PART 0: data representation *)
+(* DomainWallVariable._value_indices = {value: i for i, value in enumerate(values)}: for the pairwise different values
+   the constructor accepts this is the list of (value, position) *)
+Definition index_dict_from (k : nat) (l : list Z) : list (Z * Z) := combine l (map Z.of_nat (seq k (List.length l))).
+Definition dw_value_indices (v : dwvar) : list (Z * Z) := index_dict_from 0 (v_values v).
+
+(* what DomainWallVariable.__init__ computes and stores besides its two arguments: _value_indices and _n_qubits *)
+Record dwcache := mkDWC { dwc_idx : list (Z * Z); dwc_nq : Z }.
+
+(* pauli_z_string on Python ints: `not 0 <= qubit_index < n_qubits` is a ValueError *)
+Definition pauli_z_string_Z (q n : Z) : result opexpr :=
+  if q <? 0 then Err ValueError else pauli_z_string (Z.to_nat q) (Z.to_nat n).
+
+(* the assigned instance attributes of JSSPDomainWallHamiltonianEncoder that the translated methods touch:
+   _machine_operations, _operation_start_variables, _operation_constraint_counts, _n_qubits, _encoding_prepared *)
+Record encstate := mkSt { st_mo : list (string * list operation); st_vars : list (operation * dwvar);
+  st_counts : list ((operation * Z) * Z); st_nq : Z; st_prepared : bool }.
+
+(* everything JSSPDomainWallHamiltonianEncoder.__init__ assigns besides jssp_instance / makespan_limit (used for the link
+   of __init__ only: the flags, the three dicts and the qubit count are the initial [encstate]; the Hamiltonian cache and
+   the five penalties are stored for _prepare_hamiltonian, which is not translated) *)
+Record encinit := mkInit { ei_prepared : bool; ei_ham_prepared : bool; ei_mo : list (string * list operation);
+  ei_vars : list (operation * dwvar); ei_counts : list ((operation * Z) * Z); ei_nq : Z; ei_ham : option opexpr;
+  ei_p_enc : Q; ei_p_overlap : Q; ei_p_prec : Q; ei_p_opt : Q; ei_p_share : Q }.
+Definition encinit_state (i : encinit) : encstate := mkSt (ei_mo i) (ei_vars i) (ei_counts i) (ei_nq i) (ei_prepared i).
+
+(* DomainWallVariable(qubit_start_index, values) as called by the encoder.  The model's record also carries the operation
+   and the construction index, which the Python object does not have and no translated function reads: they are dummies
+   in the generated code ([ghost]); the links supply them from the dict key. *)
+Definition ghost_op : operation := mkOp ""%string ""%string ""%string 0.
+Definition ghost (v : dwvar) : dwvar := mkVar 0%nat ghost_op (v_start v) (v_values v).
+Definition mk_dwvar_py (q : Z) (vals : list Z) : result dwvar := mk_dwvar 0%nat ghost_op (Z.to_nat q) vals.
+
+(* ================================================================================== PART 1: sequences, dicts, bits *)
 (* range(a, b) *)
 Lemma py_range_zrange a b : py_range a b = zrange a (b - a).
 Proof. reflexivity. Qed.
@@ -19,8 +57,6 @@ Proof.
 Qed.
 
 (* the dict {value: position}: membership and look-up are index_of *)
-Definition index_dict_from (k : nat) (l : list Z) : list (Z * Z) := combine l (map Z.of_nat (seq k (List.length l))).
-
 Lemma index_dict_mem t l : forall k,
   py_mem Z.eqb t (py_dict_keys (index_dict_from k l)) = match index_of t l with Some _ => true | None => false end.
 Proof.
@@ -113,4 +149,456 @@ Proof.
   destruct x; cbn [b2z]; change (1 =? 0) with false; change (1 =? 1) with true; change (0 =? 0) with true; cbn [negb].
   - rewrite IH. destruct (first_false r); cbn [option_map]; [|reflexivity]. do 2 f_equal. lia.
   - now rewrite Nat.add_0_r.
+Qed.
+
+(* ------------------------------------------------------------------------------------------------ encoder *)
+From QV Require Import Jssp.Encoder.
+
+(* l[-1] / l[0] as the model reads them *)
+Lemma nth_error_last_opt {A} (l : list A) : l <> [] -> nth_error l (List.length l - 1) = last_opt l.
+Proof.
+  induction l as [|x r IH]; [congruence|]. intros _. destruct r as [|y r']; [reflexivity|].
+  change (last_opt (x :: y :: r')) with (last_opt (y :: r')). rewrite <- IH by congruence.
+  cbn [List.length]. replace (S (S (List.length r')) - 1)%nat with (S (S (List.length r') - 1)) by lia. reflexivity.
+Qed.
+
+Lemma py_index_m1 (v : dwvar) : py_index (v_values v) (-1) = vmax v.
+Proof.
+  unfold vmax. rewrite py_index_last. destruct (v_values v) as [|x r] eqn:E; [reflexivity|].
+  rewrite nth_error_last_opt by congruence. destruct (last_opt (x :: r)); reflexivity.
+Qed.
+
+Lemma py_index_0 (v : dwvar) : py_index (v_values v) 0 = vmin v.
+Proof. unfold vmin. change 0 with (Z.of_nat 0). rewrite (py_index_nat (v_values v) 0). destruct (v_values v); reflexivity. Qed.
+
+(* [(a, b) for a in l1 for b in l2 if p a b] *)
+Lemma comp2_filter_prod {A B} (p : A -> B -> bool) (l2 : list B) : forall l1 : list A,
+  flat_map (fun a => map (fun b => (a, b)) (filter (fun b => p a b) l2)) l1
+  = filter (fun ab => p (fst ab) (snd ab)) (list_prod l1 l2).
+Proof.
+  induction l1 as [|a r IH]; [reflexivity|]. cbn [flat_map list_prod]. rewrite filter_app, IH. f_equal.
+  clear. induction l2 as [|b t IH]; [reflexivity|]. cbn [filter map fst snd]. destruct (p a b); cbn [map]; now rewrite IH.
+Qed.
+
+(* the constraint-count dict {(operation, start time): count} *)
+Definition ckey : Type := (operation * Z)%type.
+Definition ckey_eqb (a b : ckey) : bool := op_eqb (fst a) (fst b) && Z.eqb (snd a) (snd b).
+Definition counts : Type := list (ckey * Z).
+
+(* counts[k] += 1 (a key that is absent would be a KeyError: excluded by [covers] where this is used) *)
+Definition dict_inc (c : counts) (k : ckey) : counts :=
+  match py_dict_get ckey_eqb c k with Ok n => py_dict_set ckey_eqb c k (n + 1) | Err _ => c end.
+Definition dict_bump (o1 o2 : operation) (pairs : list (Z * Z)) (c : counts) : counts :=
+  fold_left (fun c st => dict_inc (dict_inc c (o1, fst st)) (o2, snd st)) pairs c.
+(* what a pair term does to the counts *)
+Definition dict_plan_bump (o1 o2 : operation) (p : pterm) (c : counts) : counts :=
+  match p with PZero => c | PPairs _ _ pairs => dict_bump o1 o2 pairs c end.
+
+(* every (o, t), t a value, has an entry *)
+Definition covers (c : counts) (o : operation) (vals : list Z) : Prop :=
+  forall t, In t vals -> is_ok (py_dict_get ckey_eqb c (o, t)) = true.
+
+Lemma dict_set_keeps {K V} (eqb : K -> K -> bool) (k k' : K) (x : V) : forall d,
+  is_ok (py_dict_get eqb d k') = true -> is_ok (py_dict_get eqb (py_dict_set eqb d k x) k') = true.
+Proof.
+  unfold py_dict_get. induction d as [|kv t IH]; cbn [find py_dict_set]; [discriminate|].
+  destruct (eqb (fst kv) k) eqn:Ek; cbn [find fst].
+  - destruct (eqb (fst kv) k'); [reflexivity | exact (fun H => H)].
+  - destruct (eqb (fst kv) k'); [reflexivity | exact IH].
+Qed.
+
+Lemma dict_inc_keeps c k k' : is_ok (py_dict_get ckey_eqb c k') = true -> is_ok (py_dict_get ckey_eqb (dict_inc c k) k') = true.
+Proof. intros H. unfold dict_inc. destruct (py_dict_get ckey_eqb c k); [now apply dict_set_keeps | exact H]. Qed.
+
+Lemma covers_inc c k o vals : covers c o vals -> covers (dict_inc c k) o vals.
+Proof. intros H t Ht. apply dict_inc_keeps, H, Ht. Qed.
+
+(* counts[k] += 1 on a present key, as the generated code spells it *)
+Lemma dict_inc_step {R} c k (f : Z -> counts -> result R) : is_ok (py_dict_get ckey_eqb c k) = true ->
+  (do n <- py_dict_get ckey_eqb c k; f n (py_dict_set ckey_eqb c k (n + 1)))
+  = match py_dict_get ckey_eqb c k with Ok n => f n (dict_inc c k) | Err e => Err e end.
+Proof. unfold dict_inc. destruct (py_dict_get ckey_eqb c k); [reflexivity | discriminate]. Qed.
+
+(* ---- the count dict against the model's count function (Encoder.ctable, keyed by the variable's construction index).
+   Not needed to check the link lemmas; it shows that the dict-level adapter [dict_plan_bump] used in their statements
+   is Encoder.plan_bump read through the representation "entry (v_op v, t) of the dict = f (v_id v) t". *)
+From QV Require Import Jssp.Valid_proofs.
+Open Scope Z_scope.
+
+Lemma ckey_eqb_eq a b : ckey_eqb a b = true <-> a = b.
+Proof.
+  unfold ckey_eqb. destruct a as [o t], b as [o' t']. cbn [fst snd]. rewrite andb_true_iff, op_eqb_eq, Z.eqb_eq.
+  split; [intros [-> ->]; reflexivity | intros [= -> ->]; split; reflexivity].
+Qed.
+
+Lemma dict_get_set {K V} (eqb : K -> K -> bool) (Heq : forall a b, eqb a b = true <-> a = b) (k k' : K) (x : V) : forall d,
+  py_dict_get eqb (py_dict_set eqb d k x) k' = if eqb k k' then Ok x else py_dict_get eqb d k'.
+Proof.
+  unfold py_dict_get. induction d as [|kv t IH]; cbn [py_dict_set find fst snd].
+  - destruct (eqb k k'); reflexivity.
+  - destruct (eqb (fst kv) k) eqn:E1; cbn [find fst snd].
+    + apply Heq in E1. rewrite E1. destruct (eqb k k'); reflexivity.
+    + destruct (eqb (fst kv) k') eqn:E2; [|exact IH].
+      apply Heq in E2. rewrite E2 in E1. replace (eqb k k') with false; [reflexivity|].
+      symmetry. destruct (eqb k k') eqn:E3; [|reflexivity]. apply Heq in E3. subst k'.
+      assert (eqb k k = true) by now apply Heq. congruence.
+Qed.
+
+Definition counts_agree (c : counts) (f : ctable) (vs : list dwvar) : Prop :=
+  forall v t, In v vs -> In t (v_values v) -> py_dict_get ckey_eqb c (v_op v, t) = Ok (Z.of_nat (f (v_id v) t)).
+(* variables are stored under pairwise different operations and carry pairwise different indices *)
+Definition ids_match (vs : list dwvar) : Prop :=
+  forall v v', In v vs -> In v' vs -> op_eqb (v_op v) (v_op v') = (v_id v =? v_id v')%nat.
+
+Lemma counts_agree_covers c f vs v : counts_agree c f vs -> In v vs -> covers c (v_op v) (v_values v).
+Proof. intros H Hv t Ht. now rewrite (H v t Hv Ht). Qed.
+
+Lemma counts_agree_inc c f vs v1 t1 : ids_match vs -> counts_agree c f vs -> In v1 vs -> In t1 (v_values v1) ->
+  counts_agree (dict_inc c (v_op v1, t1)) (ct_bump (v_id v1) t1 f) vs.
+Proof.
+  intros Hid Hag H1 Ht1 v t Hv Ht. unfold dict_inc. rewrite (Hag v1 t1 H1 Ht1).
+  rewrite (dict_get_set ckey_eqb ckey_eqb_eq). unfold ckey_eqb, ct_bump. cbn [fst snd].
+  rewrite (Hid v1 v H1 Hv), (Nat.eqb_sym (v_id v1)), (Z.eqb_sym t1).
+  destruct ((v_id v =? v_id v1)%nat && (t =? t1)) eqn:E.
+  - apply andb_true_iff in E as [E1 E2]. apply Nat.eqb_eq in E1. apply Z.eqb_eq in E2. subst t. rewrite E1. f_equal. lia.
+  - apply Hag; assumption.
+Qed.
+
+Lemma dict_plan_bump_agree c f vs v1 v2 pairs : ids_match vs -> In v1 vs -> In v2 vs ->
+  (forall q, In q pairs -> In (fst q) (v_values v1) /\ In (snd q) (v_values v2)) ->
+  counts_agree c f vs ->
+  counts_agree (dict_plan_bump (v_op v1) (v_op v2) (PPairs v1 v2 pairs) c) (plan_bump f (PPairs v1 v2 pairs)) vs.
+Proof.
+  intros Hid H1 H2. cbn [dict_plan_bump plan_bump]. unfold dict_bump. revert c f.
+  induction pairs as [|q r IH]; intros c f Hin Hag; [exact Hag|]. cbn [fold_left].
+  destruct (Hin q (or_introl eq_refl)) as [Q1 Q2].
+  apply IH; [intros q' Hq'; apply Hin; now right|].
+  apply counts_agree_inc; [assumption| |assumption|assumption].
+  apply counts_agree_inc; assumption.
+Qed.
+
+(* ================================================================================== PART 3: _prepare_encoding
+   What one iteration of the inner loop does to the state, given the variable v the model builds in that iteration
+   (adapters used in the statement of link_Enc_prepare_encoding; they follow the implementation literally, the lemmas
+   further down read them through the model's representation). *)
+Definition mo_step (mo : list (string * list operation)) (o : operation) : list (string * list operation) :=
+  let mo' := if negb (py_mem String.eqb (op_machine o) (py_dict_keys mo))
+             then py_dict_set String.eqb mo (op_machine o) ([] : list operation) else mo in
+  match py_dict_get String.eqb mo' (op_machine o) with
+  | Ok l => py_dict_set String.eqb mo' (op_machine o) (l ++ [o])%list
+  | Err _ => mo'
+  end.
+Definition counts_init (c : counts) (o : operation) (vals : list Z) : counts :=
+  fold_left (fun c t => py_dict_set ckey_eqb c (o, t) 0) vals c.
+Definition add_var (st : encstate) (v : dwvar) : encstate :=
+  mkSt (mo_step (st_mo st) (v_op v)) (py_dict_set op_eqb (st_vars st) (v_op v) (ghost v))
+       (counts_init (st_counts st) (v_op v) (v_values v)) (st_nq st + Z.of_nat (var_nq v)) (st_prepared st).
+(* the state JSSPDomainWallHamiltonianEncoder.__init__ leaves *)
+Definition st_init : encstate := mkSt [] [] [] 0 false.
+Definition set_prepared (st : encstate) : encstate := mkSt (st_mo st) (st_vars st) (st_counts st) (st_nq st) true.
+(* the state _prepare_encoding leaves, from the model's encoding *)
+Definition state_of_enc (e : enc) : encstate := set_prepared (fold_left add_var (e_vars e) st_init).
+
+Lemma string_eqb_eq a b : String.eqb a b = true <-> a = b.
+Proof. apply String.eqb_eq. Qed.
+
+Lemma dict_get_set_same {K V} (eqb : K -> K -> bool) (Heq : forall a b, eqb a b = true <-> a = b) (k : K) (x : V) d :
+  py_dict_get eqb (py_dict_set eqb d k x) k = Ok x.
+Proof. rewrite (dict_get_set eqb Heq). replace (eqb k k) with true; [reflexivity|]. symmetry. now apply Heq. Qed.
+
+Lemma mem_keys_get {K V} (eqb : K -> K -> bool) (Heq : forall a b, eqb a b = true <-> a = b) (k : K) (d : list (K * V)) :
+  py_mem eqb k (py_dict_keys d) = is_ok (py_dict_get eqb d k).
+Proof.
+  unfold py_mem, py_dict_keys, py_dict_get. induction d as [|kv t IH]; [reflexivity|]. cbn [map existsb find].
+  replace (eqb k (fst kv)) with (eqb (fst kv) k).
+  - destruct (eqb (fst kv) k); [reflexivity | exact IH].
+  - destruct (eqb (fst kv) k) eqn:E1, (eqb k (fst kv)) eqn:E2; try reflexivity.
+    + apply Heq in E1. subst k. assert (eqb (fst kv) (fst kv) = true) by now apply Heq. congruence.
+    + apply Heq in E2. subst k. assert (eqb (fst kv) (fst kv) = true) by now apply Heq. congruence.
+Qed.
+
+(* the look-up after `if m not in d: d[m] = []` succeeds *)
+Lemma mo_get_ok (mo : list (string * list operation)) m :
+  exists l, py_dict_get String.eqb (if negb (py_mem String.eqb m (py_dict_keys mo))
+                                    then py_dict_set String.eqb mo m ([] : list operation) else mo) m = Ok l.
+Proof.
+  rewrite (mem_keys_get String.eqb string_eqb_eq). destruct (py_dict_get String.eqb mo m) as [l|e] eqn:E; cbn [is_ok negb].
+  - exists l. exact E.
+  - exists []. apply (dict_get_set_same String.eqb string_eqb_eq).
+Qed.
+
+Lemma mk_dwvar_py_ghost id o q vals : mk_dwvar_py (Z.of_nat q) vals = do v <- mk_dwvar id o q vals; Ok (ghost v).
+Proof.
+  unfold mk_dwvar_py, mk_dwvar. rewrite Nat2Z.id.
+  destruct (List.length vals <? 1)%nat; [reflexivity|]. destruct (negb (nodupZ vals)); reflexivity.
+Qed.
+
+Lemma var_nq_ghost v : var_nq (ghost v) = var_nq v.
+Proof. reflexivity. Qed.
+
+Lemma counts_fold_state o vals : forall st,
+  fold_left (fun st t => mkSt (st_mo st) (st_vars st) (py_dict_set ckey_eqb (st_counts st) (o, t) 0) (st_nq st) (st_prepared st)) vals st
+  = mkSt (st_mo st) (st_vars st) (counts_init (st_counts st) o vals) (st_nq st) (st_prepared st).
+Proof.
+  unfold counts_init. induction vals as [|t r IH]; intros st; [destruct st; reflexivity|].
+  cbn [fold_left]. rewrite IH. reflexivity.
+Qed.
+
+Lemma nq_add_vars vs : forall st, st_nq (fold_left add_var vs st) = st_nq st + Z.of_nat (sum_nq vs).
+Proof.
+  induction vs as [|v r IH]; intros st; cbn [fold_left sum_nq fold_right]; [lia|].
+  rewrite IH. cbn [add_var st_nq]. fold (sum_nq r). lia.
+Qed.
+
+Lemma prepared_add_vars vs : forall st, st_prepared (fold_left add_var vs st) = st_prepared st.
+Proof. induction vs as [|v r IH]; intros st; cbn [fold_left]; [reflexivity|]. now rewrite IH. Qed.
+
+(* ---- the state _prepare_encoding leaves satisfies what the pair-term links assume (their hypotheses Hv / Hc), provided the
+   operations are pairwise different (a well-formed instance: the same assumption under which the hand-written model
+   carries each variable next to its operation instead of in a dict), and the pair terms preserve it. *)
+Lemma op_eqb_neq a b : a <> b -> op_eqb a b = false.
+Proof. intros H. destruct (op_eqb a b) eqn:E; [|reflexivity]. apply op_eqb_eq in E. contradiction. Qed.
+
+Lemma vars_lookup_kept vs : forall st k x, ~ In k (map v_op vs) -> py_dict_get op_eqb (st_vars st) k = Ok x ->
+  py_dict_get op_eqb (st_vars (fold_left add_var vs st)) k = Ok x.
+Proof.
+  induction vs as [|v r IH]; intros st k x Hk Hget; [exact Hget|]. cbn [fold_left]. apply IH.
+  - intros H. apply Hk. now right.
+  - cbn [add_var st_vars]. rewrite (dict_get_set op_eqb op_eqb_eq), op_eqb_neq; [exact Hget|].
+    intros E. apply Hk. left. exact E.
+Qed.
+
+Lemma vars_lookup vs : NoDup (map v_op vs) -> forall st v, In v vs ->
+  py_dict_get op_eqb (st_vars (fold_left add_var vs st)) (v_op v) = Ok (ghost v).
+Proof.
+  induction vs as [|w r IH]; intros Hnd st v Hv; [contradiction|]. cbn [map] in Hnd. inversion Hnd as [|? ? Hnot Hnd']; subst.
+  cbn [fold_left]. destruct Hv as [->|Hv]; [|now apply IH].
+  apply vars_lookup_kept; [exact Hnot|]. cbn [add_var st_vars]. apply (dict_get_set_same op_eqb op_eqb_eq).
+Qed.
+
+Lemma counts_init_keeps o vals : forall c k, is_ok (py_dict_get ckey_eqb c k) = true ->
+  is_ok (py_dict_get ckey_eqb (counts_init c o vals) k) = true.
+Proof.
+  unfold counts_init. induction vals as [|t r IH]; intros c k H; [exact H|]. cbn [fold_left]. apply IH. now apply dict_set_keeps.
+Qed.
+
+Lemma counts_init_covers o vals : forall c, covers (counts_init c o vals) o vals.
+Proof.
+  unfold counts_init. induction vals as [|t r IH]; intros c x Hx; [contradiction|]. cbn [fold_left].
+  destruct Hx as [->|Hx]; [|now apply IH].
+  apply (counts_init_keeps o r). now rewrite (dict_get_set_same ckey_eqb ckey_eqb_eq).
+Qed.
+
+Lemma counts_kept vs : forall st k, is_ok (py_dict_get ckey_eqb (st_counts st) k) = true ->
+  is_ok (py_dict_get ckey_eqb (st_counts (fold_left add_var vs st)) k) = true.
+Proof.
+  induction vs as [|v r IH]; intros st k H; [exact H|]. cbn [fold_left]. apply IH. cbn [add_var st_counts]. now apply counts_init_keeps.
+Qed.
+
+Lemma counts_cover vs : forall st v, In v vs -> covers (st_counts (fold_left add_var vs st)) (v_op v) (v_values v).
+Proof.
+  induction vs as [|w r IH]; intros st v Hv; [contradiction|]. cbn [fold_left]. destruct Hv as [->|Hv]; [|now apply IH].
+  intros t Ht. apply counts_kept. cbn [add_var st_counts]. now apply counts_init_covers.
+Qed.
+
+(* after _prepare_encoding: every variable of the model's encoding is found under its operation, with its counts *)
+Lemma prepared_state_ok e v : NoDup (map v_op (e_vars e)) -> In v (e_vars e) ->
+  py_dict_get op_eqb (st_vars (state_of_enc e)) (v_op v) = Ok (ghost v)
+  /\ covers (st_counts (state_of_enc e)) (v_op v) (v_values v).
+Proof.
+  intros Hnd Hv. unfold state_of_enc, set_prepared. cbn [st_vars st_counts]. split; [now apply vars_lookup | now apply counts_cover].
+Qed.
+
+(* the increments of a pair term keep every entry *)
+Lemma covers_plan_bump o1 o2 p c o vals : covers c o vals -> covers (dict_plan_bump o1 o2 p c) o vals.
+Proof.
+  destruct p as [|v1 v2 pairs]; cbn [dict_plan_bump]; [exact (fun H => H)|]. unfold dict_bump. revert c.
+  induction pairs as [|q r IH]; intros c H; [exact H|]. cbn [fold_left]. apply IH. now apply covers_inc, covers_inc.
+Qed.
+
+(* _machine_operations: the implementation's dict of operations is the model's dict of variables (Encoder.mo_add) read
+   through v_op *)
+Definition mo_ops (mo : list (string * list dwvar)) : list (string * list operation) := map (fun ml => (fst ml, map v_op (snd ml))) mo.
+
+Fixpoint mo_add_op (o : operation) (mo : list (string * list operation)) : list (string * list operation) :=
+  match mo with
+  | [] => [(op_machine o, [o])]
+  | (m, l) :: r => if String.eqb m (op_machine o) then (m, (l ++ [o])%list) :: r else (m, l) :: mo_add_op o r
+  end.
+
+Lemma mo_get_cons m' (l : list operation) r m :
+  py_dict_get String.eqb ((m', l) :: r) m = if String.eqb m' m then Ok l else py_dict_get String.eqb r m.
+Proof. unfold py_dict_get. cbn [find fst snd]. destruct (String.eqb m' m); reflexivity. Qed.
+
+Lemma mo_step_mo_add_op o : forall mo, mo_step mo o = mo_add_op o mo.
+Proof.
+  unfold mo_step. set (m := op_machine o). intros mo.
+  rewrite (mem_keys_get String.eqb string_eqb_eq).
+  induction mo as [|[m' l] r IH].
+  - cbn [py_dict_get find is_ok negb py_dict_set]. rewrite mo_get_cons, String.eqb_refl. cbn [py_dict_set fst].
+    rewrite String.eqb_refl. reflexivity.
+  - cbn [mo_add_op]. fold m. rewrite mo_get_cons. destruct (String.eqb m' m) eqn:E.
+    + cbn [is_ok negb]. rewrite mo_get_cons, E. cbn [py_dict_set fst]. rewrite E. reflexivity.
+    + rewrite <- IH. destruct (py_dict_get String.eqb r m) as [l0|e] eqn:Eg; cbn [is_ok negb].
+      * rewrite mo_get_cons, E, Eg. cbn [py_dict_set fst]. rewrite E. reflexivity.
+      * cbn [py_dict_set fst]. rewrite E. rewrite mo_get_cons, E.
+        rewrite (dict_get_set_same String.eqb string_eqb_eq). cbn [py_dict_set fst]. rewrite E. reflexivity.
+Qed.
+
+Lemma mo_add_op_mo_add v : forall mo, mo_add_op (v_op v) (mo_ops mo) = mo_ops (mo_add v mo).
+Proof.
+  induction mo as [|[m l] r IH]; [reflexivity|]. cbn [mo_ops map fst snd mo_add_op mo_add]. fold (mo_ops r).
+  destruct (String.eqb m (op_machine (v_op v))); cbn [mo_ops map fst snd]; [now rewrite map_app|]. fold (mo_ops r).
+  fold (mo_ops (mo_add v r)). now rewrite IH.
+Qed.
+
+Lemma mo_step_mo_add v mo : mo_step (mo_ops mo) (v_op v) = mo_ops (mo_add v mo).
+Proof. now rewrite mo_step_mo_add_op, mo_add_op_mo_add. Qed.
+
+(* hence the machine dict of the prepared state is the model's machine_ops *)
+Lemma st_mo_fold vs : forall st mo, st_mo st = mo_ops mo ->
+  st_mo (fold_left add_var vs st) = mo_ops (fold_left (fun mo v => mo_add v mo) vs mo).
+Proof.
+  induction vs as [|v r IH]; intros st mo H; [exact H|]. cbn [fold_left]. apply IH. cbn [add_var st_mo]. rewrite H. apply mo_step_mo_add.
+Qed.
+
+Lemma st_mo_state_of_enc e : st_mo (state_of_enc e) = mo_ops (machine_ops (e_vars e)).
+Proof. unfold state_of_enc, set_prepared, machine_ops. cbn [st_mo]. now apply st_mo_fold. Qed.
+
+(* ================================================================================== PART 4: DomainWallVariable.__init__
+   {value: i for i, value in enumerate(values)} is the list of (value, position) exactly when the values are pairwise
+   different, and is shorter than `values` otherwise (the constructor's second ValueError). *)
+Definition haskey (d : list (Z * Z)) (x : Z) : bool := existsb (fun kv => fst kv =? x) d.
+Definition build_dict (acc : list (Z * Z)) (k : nat) (l : list Z) : list (Z * Z) :=
+  fold_left (fun d kv => py_dict_set Z.eqb d (fst kv) (snd kv))
+            (map (fun '(i, value_) => (value_, i)) (combine (map Z.of_nat (seq k (List.length l))) l)) acc.
+Definition bad (acc : list (Z * Z)) (l : list Z) : bool := negb (nodupZ l) || existsb (haskey acc) l.
+
+Lemma set_fresh d x v : haskey d x = false -> py_dict_set Z.eqb d x v = (d ++ [(x, v)])%list.
+Proof.
+  unfold haskey. induction d as [|kv t IH]; cbn [existsb py_dict_set app]; [reflexivity|].
+  destruct (fst kv =? x); cbn [orb]; [discriminate|]. intros H. now rewrite IH.
+Qed.
+
+Lemma set_present_length d x v : haskey d x = true -> List.length (py_dict_set Z.eqb d x v) = List.length d.
+Proof.
+  unfold haskey. induction d as [|kv t IH]; cbn [existsb py_dict_set]; [discriminate|].
+  destruct (fst kv =? x); cbn [orb List.length]; [reflexivity|]. intros H. now rewrite IH.
+Qed.
+
+Lemma haskey_app d y v x : haskey (d ++ [(y, v)]) x = haskey d x || (y =? x).
+Proof. unfold haskey. rewrite existsb_app. cbn [existsb fst]. now rewrite orb_false_r. Qed.
+
+Lemma build_dict_cons acc k x r : build_dict acc k (x :: r) = build_dict (py_dict_set Z.eqb acc x (Z.of_nat k)) (S k) r.
+Proof. reflexivity. Qed.
+
+Lemma build_dict_length_le : forall l acc k, (List.length (build_dict acc k l) <= List.length acc + List.length l)%nat.
+Proof.
+  induction l as [|x r IH]; intros acc k; [cbn; lia|]. rewrite build_dict_cons. specialize (IH (py_dict_set Z.eqb acc x (Z.of_nat k)) (S k)).
+  destruct (haskey acc x) eqn:E.
+  - rewrite (set_present_length _ _ _ E) in IH. cbn [List.length]. lia.
+  - rewrite (set_fresh _ _ _ E) in *. rewrite app_length in IH. cbn [List.length] in *. lia.
+Qed.
+
+Lemma memZ_existsb x l : memZ x l = existsb (fun y => x =? y) l.
+Proof. induction l as [|y r IH]; [reflexivity|]. cbn [memZ existsb]. now rewrite IH. Qed.
+
+Lemma bad_step acc x k r : haskey acc x = false -> bad acc (x :: r) = bad (acc ++ [(x, Z.of_nat k)]) r.
+Proof.
+  intros E. unfold bad. cbn [nodupZ existsb]. rewrite E. cbn [orb].
+  assert (H : existsb (haskey (acc ++ [(x, Z.of_nat k)])) r = existsb (haskey acc) r || memZ x r).
+  { rewrite memZ_existsb. induction r as [|y t IH]; [reflexivity|]. cbn [existsb]. rewrite IH, haskey_app.
+    destruct (haskey acc y), (x =? y), (existsb (haskey acc) t), (existsb (fun y0 => x =? y0) t); reflexivity. }
+  rewrite H. destruct (memZ x r), (nodupZ r), (existsb (haskey acc) r); reflexivity.
+Qed.
+
+Lemma build_dict_good : forall l acc k, bad acc l = false -> build_dict acc k l = (acc ++ index_dict_from k l)%list.
+Proof.
+  induction l as [|x r IH]; intros acc k H; [cbn; now rewrite app_nil_r|]. rewrite build_dict_cons.
+  assert (E : haskey acc x = false).
+  { unfold bad in H. cbn [existsb] in H. destruct (haskey acc x); [|reflexivity]. now rewrite orb_true_r in H. }
+  rewrite (bad_step acc x k r E) in H. rewrite (set_fresh _ _ _ E), (IH _ (S k) H), <- app_assoc. reflexivity.
+Qed.
+
+Lemma build_dict_bad : forall l acc k, bad acc l = true -> (List.length (build_dict acc k l) < List.length acc + List.length l)%nat.
+Proof.
+  induction l as [|x r IH]; intros acc k H; [discriminate|]. rewrite build_dict_cons. cbn [List.length].
+  destruct (haskey acc x) eqn:E.
+  - pose proof (build_dict_length_le r (py_dict_set Z.eqb acc x (Z.of_nat k)) (S k)) as Hle.
+    rewrite (set_present_length _ _ _ E) in Hle. lia.
+  - rewrite (bad_step acc x k r E) in H. rewrite (set_fresh _ _ _ E). specialize (IH _ (S k) H). rewrite app_length in IH. cbn [List.length] in IH. lia.
+Qed.
+
+Lemma index_dict_length k l : List.length (index_dict_from k l) = List.length l.
+Proof. unfold index_dict_from. rewrite combine_length, map_length, seq_length. lia. Qed.
+
+(* the constructor, in the shape the translator generates it *)
+Lemma dwv_init_model id o q (vals : list Z) :
+  (if py_len vals <? 1 then Err "ValueError"%string
+   else let idx := build_dict [] 0 vals in
+        if negb (py_len vals =? py_len idx) then Err "ValueError"%string
+        else Ok (mkDWC idx (py_len vals - 1)))
+  = do v <- mk_dwvar id o q vals; Ok (mkDWC (dw_value_indices v) (Z.of_nat (var_nq v))).
+Proof.
+  unfold mk_dwvar, py_len.
+  replace (Z.of_nat (List.length vals) <? 1) with (List.length vals <? 1)%nat
+    by (destruct (Nat.ltb_spec (List.length vals) 1); symmetry; [apply Z.ltb_lt | apply Z.ltb_ge]; lia).
+  destruct (Nat.ltb_spec (List.length vals) 1) as [Hl|Hl]; [reflexivity|]. cbv zeta.
+  destruct (nodupZ vals) eqn:Hn; cbn [negb bind].
+  - assert (Hb : bad [] vals = false).
+    { unfold bad. rewrite Hn. cbn [negb orb]. clear. induction vals as [|x r IH]; [reflexivity|]. cbn [existsb haskey]. exact IH. }
+    rewrite (build_dict_good vals [] 0 Hb). cbn [app]. rewrite index_dict_length, Z.eqb_refl. cbn [negb].
+    unfold dw_value_indices, var_nq. cbn [v_values]. do 2 f_equal. lia.
+  - assert (Hb : bad [] vals = true) by (unfold bad; now rewrite Hn).
+    pose proof (build_dict_bad vals [] 0 Hb) as Hlt. cbn [List.length Nat.add] in Hlt.
+    replace (Z.of_nat (List.length vals) =? Z.of_nat (List.length (build_dict [] 0 vals))) with false
+      by (symmetry; apply Z.eqb_neq; lia). reflexivity.
+Qed.
+
+(* ================================================================================== PART 5: prepare_encoding / makespan term, model-side facts *)
+Lemma mk_dwvar_ok id o q vals v : mk_dwvar id o q vals = Ok v -> v = mkVar id o q vals.
+Proof. unfold mk_dwvar. destruct (List.length vals <? 1)%nat; [discriminate|]. destruct (negb (nodupZ vals)); [discriminate|]. now intros [= <-]. Qed.
+
+Lemma st_nq_state_of_enc I L e : prepare_encoding I L = Ok e -> st_nq (state_of_enc e) = Z.of_nat (e_nq e).
+Proof.
+  unfold prepare_encoding. destruct (prep_jobs L 0 0 (inst_jobs I)) as [js|]; cbn [bind]; [|discriminate]. intros [= <-].
+  unfold state_of_enc, set_prepared, e_vars. cbn [st_nq e_jobs e_nq]. rewrite nq_add_vars. reflexivity.
+Qed.
+
+(* the model's encoding has one variable per operation, job by job *)
+Lemma prep_ops_ops L : forall ops so eo q id vs, prep_ops L so eo q id ops = Ok vs -> map v_op vs = ops.
+Proof.
+  induction ops as [|o r IH]; intros so eo q id vs; cbn [prep_ops]; [now intros [= <-]|].
+  destruct (mk_dwvar id o q _) as [v|] eqn:Ev; cbn [bind]; [|discriminate].
+  destruct (prep_ops L _ _ _ _ r) as [vs'|] eqn:Er; cbn [bind]; [|discriminate]. intros [= <-].
+  apply mk_dwvar_ok in Ev. subst v. cbn [map v_op]. f_equal. eapply IH, Er.
+Qed.
+
+Lemma prep_jobs_ops L : forall jobs q id js, prep_jobs L q id jobs = Ok js -> map (map v_op) js = map job_ops jobs.
+Proof.
+  induction jobs as [|j r IH]; intros q id js; cbn [prep_jobs]; [now intros [= <-]|].
+  destruct (job_total j >? L); [discriminate|].
+  destruct (prep_ops L 0 _ q id (job_ops j)) as [vs|] eqn:Ev; cbn [bind]; [|discriminate].
+  destruct (prep_jobs L _ _ r) as [rest|] eqn:Er; cbn [bind]; [|discriminate]. intros [= <-].
+  cbn [map]. f_equal; [eapply prep_ops_ops, Ev | eapply IH, Er].
+Qed.
+
+Lemma last_opt_map {A B} (f : A -> B) : forall l, last_opt (map f l) = option_map f (last_opt l).
+Proof. induction l as [|x r IH]; [reflexivity|]. destruct r as [|y r']; [reflexivity|]. exact IH. Qed.
+
+Lemma py_index_m1_last_opt {A} (l : list A) :
+  py_index l (-1) = match last_opt l with Some x => Ok x | None => Err IndexError end.
+Proof.
+  rewrite py_index_last. destruct l as [|x r]; [reflexivity|]. rewrite nth_error_last_opt by congruence.
+  destruct (last_opt (x :: r)); reflexivity.
+Qed.
+
+Lemma qdiv_shape p m : m <> 0 ->
+  qdiv (inject_Z p) (inject_Z m) = Ok ((1 # 1) / inject_Z m * inject_Z p)%Q.
+Proof.
+  intros Hm. unfold qdiv.
+  destruct (Qeq_bool (inject_Z m) 0) eqn:E.
+  { apply Qeq_bool_iff in E. unfold Qeq, inject_Z in E. cbn [Qnum Qden] in E. lia. }
+  f_equal. unfold Qdiv, Qinv, Qmult, inject_Z. cbn [Qnum Qden].
+  destruct m as [|d|d]; [contradiction| |]; cbn [Qnum Qden]; f_equal; try ring; now rewrite Pos.mul_1_r.
 Qed.
